@@ -39,11 +39,14 @@ class DA(Agent, D.IDecodable):
         return DA(params["pre"] + str(params["agent_index"]), params["model"])
 
 
+PRESENT = []
 NESTED = {}
 
 
 def hook(params):
     LOG.append(("hook", MOD, params["name"], params.get("model")))
+    if params.get("model") is not None:
+        PRESENT.append((params["name"], len(params["model"].environment)))     # what the hook finds in the environment
     if params.get("complete") and params.get("model") is not None:
         params["model"].complete()
     if params.get("swap_env") and params.get("model") is not None:
@@ -199,6 +202,7 @@ def lifecycle(hm0: bool, hm1: bool, hs00: bool, hs01: bool, hs10: bool, hs11: bo
     hx.begin()
     ns, ng, mod = hx.P['s'], hx.P['g'], hx.P.get('mod', MOD)
     del LOG[:]
+    del PRESENT[:]
     if 'hm' in hx.P:                      # model-level hook flags chosen by the partition (splits the work across cores)
         hm0, hm1 = hx.P['hm']
     if 'n1' in hx.P:
@@ -263,6 +267,17 @@ def lifecycle(hm0: bool, hm1: bool, hs00: bool, hs01: bool, hs10: bool, hs11: bo
         first = "s1" if p1 > p0 else "s0"
         if q[0].id != first:
             return hx.end(hx.fail("execution queue order", got=[s.id for s in q]))
+    # a group's pre hook finds the agents of the earlier groups only, its post hook all of its own agents as well.  (Whether
+    # the agents of ONE group are added one at a time or together after all were created is not fixed by the property.)
+    if mod == MOD and not special:
+        for name, found in PRESENT:
+            for gi in range(ng):
+                before = sum([n0, n1][:gi])
+                if name == "pre_g%d" % gi and found != before:
+                    return hx.end(hx.fail("a group's pre hook found agents of its own or a later group", hook=name, found=found, exp=before))
+                if name == "post_g%d" % gi and found != before + [n0, n1][gi]:
+                    return hx.end(hx.fail("a group's post hook ran before all of the group's agents had joined", hook=name,
+                                          found=found, exp=before + [n0, n1][gi]))
     # ... and exactly the created agents, indices 0..n-1 per group, in order
     want = ["g%d_%d" % (i, j) for i in range(ng) for j in range([n0, n1][i])]
     if [a.id for a in model.environment] != want:
